@@ -540,6 +540,9 @@ pub fn gen(rng: &mut Prng, plan: &mut Plan) {
                 if rng.chance(1, 6) {
                     s = s.i("fail", 1 + rng.below(d.len() as u64 + 2) as i128);
                 }
+                if rng.chance(1, 25) {
+                    s = s.i("wrongtype", 1);
+                }
                 s
             }
             8..=10 => {
@@ -762,6 +765,11 @@ pub fn exec(plan: &Plan) -> RunResult {
                 if !eof {
                     toks.push(Tok::End);
                 }
+                let wrongtype = s.int("wrongtype") != 0;
+                if wrongtype {
+                    // the peer sends a bare number where a sequence is expected
+                    toks = vec![Tok::U32(d.first().copied().unwrap_or(7) as u32)];
+                }
                 let ntoks = toks.len();
                 simalloc::track_max(true);
                 let deliver = s.int("deliver") as u8;
@@ -779,10 +787,11 @@ pub fn exec(plan: &Plan) -> RunResult {
                     Err(m) => bad!("panic", "BigUint::deserialize", "digits {d:x?} hint {hint:?} eof {eof} fail {fail:?}: {m}"),
                 };
                 let too_wide = d.iter().any(|&x| x > u32::MAX as u64);
-                let must_err = too_wide || eof || fired;
-                let fault = if fired { "de.fail" } else if eof { "de.truncate_stream" } else if too_wide { "de.wide" } else if d.last() == Some(&0) { "de.pad" } else { "" };
+                let must_err = too_wide || eof || fired || wrongtype;
+                let fault = if wrongtype { "de.wrong_type" } else if fired { "de.fail" } else if eof { "de.truncate_stream" } else if too_wide { "de.wide" } else if d.last() == Some(&0) { "de.pad" } else { "" };
                 if !fault.is_empty() {
                     res.fault(match fault {
+                        "de.wrong_type" => "de.wrong_type",
                         "de.fail" => "de.fail",
                         "de.truncate_stream" => "de.eof",
                         "de.wide" => "de.wide",
@@ -794,7 +803,7 @@ pub fn exec(plan: &Plan) -> RunResult {
                         if !must_err {
                             bad!("reject-valid", "BigUint::deserialize", "digits {d:x?} (hint {hint:?}) rejected: {e:?}");
                         }
-                        if fired && e != SimErr::Injected(fail.unwrap()) {
+                        if fired && !wrongtype && e != SimErr::Injected(fail.unwrap()) {
                             bad!("error-propagation", "BigUint::deserialize", "injected error replaced by {e:?}");
                         }
                         dg.u64(0xe);
